@@ -10,8 +10,8 @@ open SlocModel SlocModel.Baseline
 /-! ### non-masking -/
 
 theorem apply_status (rs : List Res) (b : Base) (r : Res) (hr : r ∈ rs) :
-    (if r.status = .failed && b.contains r.path then { r with status := .grandfathered } else r)
-      ∈ apply rs b := by
+    (if r.status = .failed && r.kind.recordable && b.contains r.path
+      then { r with status := .grandfathered } else r) ∈ apply rs b := by
   unfold apply; exact List.mem_map.mpr ⟨r, hr, rfl⟩
 
 /-- a failed result whose path is not recorded stays failed through the whole pipeline … -/
@@ -122,6 +122,34 @@ theorem partial_modes_keep_other_kind (rs : List Res) (existing : Base) (k : Key
     simp only [updateStart, Option.getD_some, Base.contains]
     exact List.any_eq_true.mpr ⟨(k, e), List.mem_filter.mpr ⟨hmem, by simp [hs]⟩, by simp⟩
 
+/-- **a violation of a kind the baseline cannot record is never grandfathered**, whatever
+    entries the baseline holds — in particular not by the entry of another violation on the same
+    path (a denied file whose line-count violation is recorded) -/
+theorem other_kind_never_masked (rs : List Res) (b : Base) (r : Res) (hr : r ∈ rs)
+    (hk : r.kind = .otherStructure) : r ∈ apply rs b := by
+  have := apply_status rs b r hr
+  simpa [hk, Kind.recordable] using this
+
+/-- … and it makes the run exit 1, whatever the baseline and the other flags (unless
+    `--warn-only`) -/
+theorem other_kind_exits_one (disk : Option Base) (rs : List Res) (ev : List Key) (f : Flags)
+    (r : Res) (hr : r ∈ rs) (hf : r.status = .failed) (hk : r.kind = .otherStructure)
+    (hwo : f.warnOnly = false)
+    (rs' : List Res) (d' : Option Base) (e : Int) (st : List Key)
+    (hrun : run disk rs ev f = .done rs' d' e st) : e = Generated.exitThreshold := by
+  obtain ⟨h1, _, h3, _⟩ := run_done disk rs ev f rs' d' e st hrun
+  have hmem : r ∈ rs' := by
+    subst h1
+    unfold grandfather
+    cases loadedOf disk f with
+    | none => exact hr
+    | some b => exact other_kind_never_masked rs b r hr hk
+  rw [h3]
+  unfold exitCode
+  have : rs'.any (fun x => decide (x.status = .failed)) = true :=
+    List.any_eq_true.mpr ⟨r, hmem, by simp [hf]⟩
+  simp [hwo, this]
+
 /-! ### round trip -/
 
 /-- after `--update-baseline` on a fresh file, a baseline check of the unchanged state
@@ -130,8 +158,9 @@ theorem round_trip_fresh (rs : List Res) (r : Res) (hr : r ∈ rs) (hf : r.statu
     (hk : r.kind ≠ .otherStructure) :
     { r with status := .grandfathered } ∈ apply rs (update .all rs none) := by
   have hc := update_all_records rs none r hr (by simp [Res.violating, hf]) hk
+  have hrec : r.kind.recordable = true := by cases hkk : r.kind <;> simp_all [Kind.recordable]
   have := apply_status rs (update .all rs none) r hr
-  simpa [hf, hc] using this
+  simpa [hf, hc, hrec] using this
 
 /-- … and then exits 0 unless a violation of another kind, or a warning under
     warnings-as-errors, remains -/
@@ -148,7 +177,10 @@ theorem round_trip_exit (rs : List Res) (wae : Bool)
     subst hxr
     by_cases hf : r.status = .failed
     · have hc := update_all_records rs none r hr (by simp [Res.violating, hf]) (hother r hr hf)
-      simp [hf, hc]
+      have hrec : r.kind.recordable = true := by
+        have := hother r hr hf
+        cases hkk : r.kind <;> simp_all [Kind.recordable]
+      simp [hf, hc, hrec]
     · simp [hf]
   have hnowarn : (wae && (apply rs (update .all rs none)).any (fun x => decide (x.status = .warning))) = false := by
     cases wae with
